@@ -1,7 +1,7 @@
 #!/bin/bash
 # tools_eval_seed.sh C07 m1 [extra property ids...]  : confirm a seeded change and run my checks against it (in the scratch worktree)
 P=$1; M=$2; shift 2; EXTRA="$@"
-WT=/tmp/wt/$P; D=/tmp/wt-out/$P/$M; O=$D/eval; mkdir -p $O
+WT=/tmp/wt/$P; D=${SEED_ROOT:-/tmp/wt-out}/$P/$M; O=$D/eval; mkdir -p $O
 git -C $WT checkout -q -- . ; git -C $WT clean -fdq
 ( cd $WT && PYTHONPATH=$WT JAX_PLATFORMS=cpu timeout 600 /venv/bin/python $D/demo.py > $O/demo_clean.out 2>&1 ); echo "demo_clean_rc=$?" > $O/summary
 if ! git -C $WT apply $D/patch.diff 2> $O/apply.err; then echo "apply=FAILED" >> $O/summary; cat $O/summary; exit 0; fi
